@@ -14,6 +14,8 @@
 (*                   total and waits for nothing but operations in progress; *)
 (*                   so NO rule consumes a hung record: a history that       *)
 (*                   contains one is never accepted.                         *)
+(*   crash {what}    the process died with a runtime fatal error inside the  *)
+(*                   program (it ran in a child process); no rule either.    *)
 (* so the order of the records is a sound real-time order: a ret that        *)
 (* precedes a call in the file really happened before it.                    *)
 (*                                                                           *)
@@ -66,7 +68,23 @@ TRet == /\ HasNext /\ Ev.ev = "ret" /\ Ev.id \in DOMAIN ops /\ ops[Ev.id].lin
         /\ ops' = [i \in (DOMAIN ops) \ {Ev.id} |-> ops[i]]
         /\ l' = l + 1 /\ UNCHANGED <<tr, st>>
 
-TNext == TCall \/ TRet \/ \E id \in DOMAIN ops : TLin(id)
+(* Search reduction (sound and complete).  An operation that cannot change   *)
+(* the state - a pure read, a getorcreate of a key that is present, a         *)
+(* loadanddelete of a key that is absent - and whose recorded result is legal *)
+(* NOW may as well take effect now: doing so changes nothing for anybody      *)
+(* else, and if it could take effect later with the same result it would be   *)
+(* just as effect-free then (a present key cannot be created again under the  *)
+(* same handle; a miss means the key is absent).  So whenever such operations *)
+(* are pending, the one with the smallest id takes effect and nothing else    *)
+(* happens; all interleavings of effect-free steps collapse into one.         *)
+PureRead(e) == e.op \in {"load", "len", "keys", "range", "get", "foreach", "hload", "slen", "slice", "callerwrite"}
+NoEffectNow(e) == \/ PureRead(e)
+                  \/ e.op = "getorcreate" /\ e.k \in DOMAIN st.atomic.items
+                  \/ e.op = "loadanddelete" /\ e.k \notin DOMAIN st.map
+Eager == {id \in DOMAIN ops : ~ops[id].lin /\ ops[id].known /\ NoEffectNow(ops[id].e) /\ Ok(ops[id].e, ops[id].res)}
+TNext == IF HasNext /\ Eager # {}
+           THEN TLin(CHOOSE id \in Eager : \A j \in Eager : id <= j)
+           ELSE TCall \/ TRet \/ \E id \in DOMAIN ops : TLin(id)
 TSpec == TInit /\ [][TNext]_vars
 Done == IF l = Trace[tr].end THEN PrintT(<<"DONE", tr>>) ELSE TRUE
 =============================================================================
